@@ -213,12 +213,11 @@ def C14_prefix_sound_statement : Prop :=
 /-- PROVED part: whatever the prefix, the chain output is in the alphabet of its chain — fully percent-encoded for
     `query`/`queryNoDotDot`, the normalised alphabet for `norm`; with `C14_choice`/`C14_choice_query` this gives the
     component claim for prefixes whose `?`/`#` Go's decoder sees.
-    Missing for the full statement: `CharRef.decodeAttr (p ++ t) = CharRef.decodeAttr p ++ CharRef.decodeAttr t`
-    under `¬ CharRef.endsWithCharRefPrefix p` together with the Rx obligation
-    `matchString endsWithCharRefPrefixPattern = CharRef.endsWithCharRefPrefix`; agreement of Go's text-mode
-    decoder with the attribute-mode decoder on validated prefixes (false in general: see the known finding below and
-    the int32 / "&#x;" quirks listed in Model/GoHtml.lean); the scheme-regex obligation. The oracle
-    (Oracle/C14.urlattr) checks every conjunct on every real template output instead. -/
+    The other conjuncts are proved in Proofs/CharRefAppend.lean and Proofs/C14Sound.lean: decoding
+    (`decodeAttr_append`, `C14_prefix_sound_decode`), scheme (`C14_prefix_sound_scheme_of`, unconditional), both regex
+    obligations as equalities; the component conjunct on Go's reading (`C14_prefix_sound_go`) and on the browser's
+    reading under decoder agreement (`C14_prefix_sound_final`). The oracle (Oracle/C14.urlattr) checks every conjunct on
+    every real template output as well. -/
 theorem C14_prefix_sound_partial (sc : SC) (p w v : Bytes) (ch : Chain)
     (hc : chooseChain sc p = some ch) (hr : runChain ch w = some v) :
     match ch with
